@@ -6,11 +6,10 @@ output that is kept".  No rule looks at a local's name, at the text of a stateme
 whether a block sits in a helper, or at how a loop / a numpy call is spelled."""
 from __future__ import annotations
 
-import ast
 from fractions import Fraction
 
 from . import e2_formula as F
-from .core import AnchorError, Unsupported
+from .core import Unsupported
 from .e1_srcmodel import dotted
 from .e2_eval import is_unknown
 from . import c19_sem as S
@@ -72,6 +71,11 @@ def _strip_carried(v):
         if a is None:
             return v
         v = a[0]
+
+
+def _is_zero_array(v):
+    v = _strip_carried(v)
+    return un(v, "zeros") is not None or un(v, "zeros_like") is not None or (israt(v) and v.is_zero())
 
 
 def _counter_offset(ix, loops):
@@ -162,7 +166,6 @@ def r1_area(ctx):
         return R, loads
 
     res = {}
-    geom = None
     for arm in (True, False):
         R0, loads = evaluate(arm, None)
         # roles of the two loops: the counter in the Freq loads is the segment counter, the one in the PSD column index the column counter
@@ -228,7 +231,7 @@ def r1_area(ctx):
         inc = val - own
         clean = not find_atoms(inc, lambda n, a: n in ("carried", "loopres", "store"))
         inloops = {S._key(k) for k, _ in chain}
-        accs[arm] = (un(_strip_carried(old), "zeros") is not None, (jx is None and ga["vector"]) or (jx is not None and eq(jx, ga["col"])), clean,
+        accs[arm] = (_is_zero_array(old), (jx is None and ga["vector"]) or (jx is not None and eq(jx, ga["col"])), clean,
                      S._key(ga["seg"].k) in inloops and (ga["vector"] or (ga["colloop"] is not None and S._key(ga["colloop"].k) in inloops)),
                      next((c.node for c in Ra.cells if eq(c.new, body)), ga["seg"].node))
         incs[arm] = inc
@@ -255,8 +258,8 @@ def r1_area(ctx):
         ctx.error("area: the segment formulas use the break points in a way that is not understood", tnode, [_short(x) for x in raw])
         return
     ok = gen.equals(exact)
-    ctx.check(ok, "area: the general formula (f2 p2 - f1 p1)/(s + 1), s the log-log slope of the segment, is the exact integral of the log-log interpolant over the segment", tnode,
-              None if ok else {"code": _short(gen), "integral": _short(exact)})
+    _chk(ctx, ok, "area: the general formula (f2 p2 - f1 p1)/(s + 1), s the log-log slope of the segment, is the exact integral of the log-log interpolant over the segment", tnode,
+         None if ok else {"code": _short(gen), "integral": _short(exact)}, [gen])
     eps = F.sym("eps")
     try:
         ser = F.series(gen.subs({"s0": eps - 1}), "eps", 0)
@@ -264,8 +267,8 @@ def r1_area(ctx):
     except Unsupported:
         lim = None
     ok = lim is not None and lim.equals(sp)
-    ctx.check(ok, "area: the special-case formula p1 f1 log(f2/f1) is the s -> -1 limit of the general one", tnode,
-              None if ok else {"limit": _short(lim) if lim is not None else "singular", "special": _short(sp)})
+    _chk(ctx, ok, "area: the special-case formula p1 f1 log(f2/f1) is the s -> -1 limit of the general one", tnode,
+         None if ok else {"limit": _short(lim) if lim is not None else "singular", "special": _short(sp)}, [gen, sp])
     if w is None or t_all is None:
         ctx.error("area: the selector is a two-sided window on the slope", tnode, _short(T))
     else:
@@ -375,7 +378,7 @@ def r2_interp(ctx):
     a, q = applied(v)
     a = a or {}
     ok = R.same(a.get("x"), "Freq") and R.same(a.get("y"), "PSD") and R.same(q, "freq") and not R.cells
-    ctx.check(ok, "interp (linear): no log/exp on either side", mk[0].node if mk else fn, None if ok else {"returned": _short(v)})
+    _chk(ctx, ok, "interp (linear): no log/exp on either side", mk[0].node if mk else fn, None if ok else {"returned": _short(v)}, [v])
 
 
 # =============================================================================================================================== R3 resample
@@ -565,43 +568,48 @@ def r3_resample(ctx):
                 raise Unsupported(f"value returned: {_short(rv)}")
             D = _Resampled(R, rv)
         except Unsupported as e:
-            ctx.error(f"resample ({arm}): result taken from the filter output", R.ret_node(), str(e))
+            if israt(rv) and not _undecided([rv]) and not find_atoms(rv, _is_filter) and not find_atoms(rv, lambda n, a: n == "apply"):
+                ctx.fail(f"resample ({arm}): result taken from the filter output", R.ret_node(), {"returned": _short(rv), "consequence": "the value returned does not depend on the FIR filter at all"})
+            else:
+                ctx.error(f"resample ({arm}): result taken from the filter output", R.ret_node(), str(e))
             continue
-        descr[arm] = (R, D, Pr, Qr, M)
+        descr[arm] = (R, D, Pr, Qr, M, rv)
+        chk = lambda ok, msg, where, detail=None, rv=rv: _chk(ctx, ok, msg, where, detail, [rv])      # noqa
         first = D.start * D.rate
         want = D.pad_front + M / 2
         ok = eq(first, want)
-        ctx.check(ok, f"resample ({arm}): the first retained sample is full-rate sample `front padding + M/2` of the filter output (the FIR is centred at M/2), for every p/q",
+        chk(ok, f"resample ({arm}): the first retained sample is full-rate sample `front padding + M/2` of the filter output (the FIR is centred at M/2), for every p/q",
                   R.ret_node(), None if ok else {"routine": D.routine, "first retained full-rate index": _short(first), "expected": _short(want),
                                                  "consequence": "q * (x // q) != x whenever q does not divide x: the output is shifted by a fraction of an output sample "
                                                                 "(original samples are not kept, constants and band-limited signals are not reproduced)"})
         sp = D.step * D.rate
         ok = eq(sp, Qr)
-        ctx.check(ok, f"resample ({arm}): retained samples are {'q' if arm == 'q > 1' else '1'} full-rate sample(s) apart after the lag is removed", R.ret_node(),
+        chk(ok, f"resample ({arm}): retained samples are {'q' if arm == 'q > 1' else '1'} full-rate sample(s) apart after the lag is removed", R.ret_node(),
                   None if ok else _short(sp))
         sig = D.signal
         removed = R.E("data") - sig if israt(sig) else None
         ok = removed is not None and eq(D.rest, removed)
-        ctx.check(ok, f"resample ({arm}): the mean removed before filtering is added back", R.ret_node(), None if ok else {"added": _short(D.rest), "removed": _short(removed)})
+        chk(ok, f"resample ({arm}): the mean removed before filtering is added back", R.ret_node(), None if ok else {"added": _short(D.rest), "removed": _short(removed)})
     if "q > 1" not in descr:
         return
-    R, D, Pr, Qr, M = descr["q > 1"]
+    R, D, Pr, Qr, M, rv = descr["q > 1"]
+    chk = lambda ok, msg, where, detail=None, rv=rv: _chk(ctx, ok, msg, where, detail, [rv])      # noqa
     ss = D.stuff_step()
     ok = ss is not None and eq(ss, Pr) and eq(D.step * D.rate, Qr)
-    ctx.check(ok, "resample: the ratio is reduced by gcd(p, q) before anything is derived from it (stuffing step p / gcd, decimation step q / gcd)", fn,
+    chk(ok, "resample: the ratio is reduced by gcd(p, q) before anything is derived from it (stuffing step p / gcd, decimation step q / gcd)", fn,
               None if ok else {"stuffing step": _short(ss), "decimation step": _short(D.step * D.rate)})
     fir = D.fir
-    lens = [a[0] for _, nm, a in find_atoms(fir, lambda n, a: n in ("call:signal.windows.kaiser", "call:np.arange", "call:windows.kaiser", "call:kaiser"))] if israt(fir) else []
+    lens = [a[0] for _, nm, a in find_atoms(fir, lambda n, a: n in ("call:signal.windows.kaiser", "call:np.arange"))] if israt(fir) else []
     ok = len(lens) >= 2 and all(eq(x, M + 1) for x in lens)
-    ctx.check(ok, "resample: the FIR has M + 1 taps with M = 2 pts max(p, q) (even: M/2 is the FIR delay in samples)", fn, None if ok else [_short(x) for x in lens])
+    chk(ok, "resample: the FIR has M + 1 taps with M = 2 pts max(p, q) (even: M/2 is the FIR delay in samples)", fn, None if ok else [_short(x) for x in lens])
     # documented output length / time vector
     Rt = regime(False, t=True)
     tv = Rt.ret()
     want = "np.arange(n) * (t[1] - t[0]) * data.shape[-1] / n + t[0]"
     nexp = Rt.E("int(np.ceil(data.shape[-1] * P / Q))", P=Pr, Q=Qr)
     ok = isinstance(tv, tuple) and len(tv) == 2 and Rt.same(tv[1], want, n=nexp)
-    ctx.check(ok, "resample: the documented output length is ceil(ln p / q), ln the input length along `axis` (the returned time vector has that many samples, spaced dt ln / n)",
-              Rt.ret_node(), None if ok else _short(tv[1] if isinstance(tv, tuple) and len(tv) > 1 else tv))
+    _chk(ctx, ok, "resample: the documented output length is ceil(ln p / q), ln the input length along `axis` (the returned time vector has that many samples, spaced dt ln / n)",
+         Rt.ret_node(), None if ok else _short(tv[1] if isinstance(tv, tuple) and len(tv) > 1 else tv), [tv])
     cutoff = "(min(1 / Q, 1 / P) / 2)"
     firexp = R.E(f"P * signal.windows.kaiser(M + 1, beta) * (2 * {cutoff} * np.sinc(2 * {cutoff} * (np.arange(M + 1) - M / 2)))", P=Pr, Q=Qr, M=M)
     ok = israt(fir) and eq(fir, firexp) and eq(D.den, F.const(1)) and eq(D.axis, F.const(-1))
@@ -622,7 +630,7 @@ def r3_resample(ctx):
         msg = ("resample: the FIR (gain p, Kaiser-windowed sinc with cut-off min(1/p, 1/q)/2 centred at M/2) is applied along the last axis and ceil(ln p / q) "
                "samples are retained")
         dbg = {"stop - start": _short(D.stop - D.start) if D.stop is not None else None, "fir": _short(fir, 200)}
-    ctx.check(ok, msg, R.ret_node(), None if ok else dbg)
+    chk(ok, msg, R.ret_node(), None if ok else dbg)
     mean_ok = _last_axis_mean(R.E("data") - D.signal, R.E("data")) if israt(D.signal) else None
     if mean_ok is None:
         ctx.error("resample: what is removed from the data before filtering (expected: the mean along the last axis)", fn, _short(D.signal))
@@ -634,7 +642,7 @@ def r3_resample(ctx):
         ok = eq(ss, Pr) and mean_ok
         msg = "resample: the (mean-removed) samples are up-sampled by p with zeros (original samples are kept when upsampling)"
     if mean_ok is not None:
-        ctx.check(bool(ok), msg, fn, None if ok else {"buffer": _short(D.buffer), "slot": _short(D.slot), "signal": _short(D.signal)})
+        chk(bool(ok), msg, fn, None if ok else {"buffer": _short(D.buffer), "slot": _short(D.slot), "signal": _short(D.signal)})
 
 
 # =============================================================================================================================== R4 rescale
@@ -649,12 +657,13 @@ def r4_rescale(ctx):
     those same edges), the outermost edges are clamped to the outermost input band edges (not the centre frequencies) for this and the nominal
     ones are used for the reported mean squares."""
     fn = ctx.src.func(PSD, "rescale")
-    for oned in (False, True):
-        _rescale_regime(ctx, fn, oned)
+    for shape in ("matrix", "vector", "row"):
+        _rescale_regime(ctx, fn, shape)
 
 
-def _rescale_regime(ctx, fn, oned):
-    tag = "rescale (P a vector)" if oned else "rescale"
+def _rescale_regime(ctx, fn, shape):
+    oned = shape != "matrix"
+    tag = {"matrix": "rescale", "vector": "rescale (P a vector)", "row": "rescale (P a 1 x n matrix)"}[shape]
 
     def call(node, ev):
         if (dotted(node.func) or "").rsplit(".", 1)[-1] == "get_freq_oct":
@@ -662,9 +671,9 @@ def _rescale_regime(ctx, fn, oned):
         return NotImplemented
 
     lo_in, hi_in = "(F - np.diff(F)[0] / 2)", "(F + np.diff(F)[0] / 2)"
-    facts = ["np.all(np.diff(F) == np.diff(F)[0])", f"FLo[0] < {lo_in}[0]", f"FUo[-1] > {hi_in}[-1]"] + (["P.ndim == 1"] if oned else ["P.ndim == 2", "P.shape[0] > 1"])
+    facts = ["np.all(np.diff(F) == np.diff(F)[0])", f"FLo[0] < {lo_in}[0]", f"FUo[-1] > {hi_in}[-1]"] + {"matrix": ["P.ndim == 2", "P.shape[0] > 1"], "vector": ["P.ndim == 1"], "row": ["P.ndim == 2", "P.shape[0] == 1"]}[shape]
     R = Run(ctx, fn, PSD, pins={"freq": "None", "frange": "None", "extendends": "True"}, facts=facts, call=call, exclude=("get_freq_oct",),
-            ranks={"F": 1, "P": 1 if oned else 2, "FLo": 1, "FUo": 1, "Wctr": 1})
+            ranks={"F": 1, "P": 1 if shape == "vector" else 2, "FLo": 1, "FUo": 1, "Wctr": 1})
     Pm, ncol = ("P.reshape(-1, 1)", "1") if oned else ("P", "P.shape[1]")
     ns = R.ret()
     ip = R.calls("interp")
@@ -674,7 +683,13 @@ def _rescale_regime(ctx, fn, oned):
     if len(ip) != 2 or any(not all(israt(c.args.get(k)) for k in ("x", "xp", "fp")) for c in ip):
         ctx.error(f"{tag}: the two np.interp calls (cumulative curve at the lower and at the upper output edges)", fn, [(_short(c.args)) for c in ip])
         return
-    a, b = ip[0].args, ip[1].args
+    # the two calls may sit in one loop over the columns or in two (two comprehensions): each one's column counter is renamed to one symbol
+    COL = F.sym("@col")
+
+    def generic(c):
+        k = S._strsym(c.loops[-1].k) if c.loops else None
+        return {key: (v.subs({k: COL}) if k and israt(v) else v) for key, v in c.args.items()}
+    a, b = generic(ip[0]), generic(ip[1])
     # the table and the curve
     ok = R.same(a["xp"], f"np.hstack(({lo_in}[0], {hi_in}))")
     _chk(ctx, ok, f"{tag} (uniform input spacing): the cumulative curve is tabulated at the input band edges [first lower edge, every upper edge], the edges being "
@@ -705,12 +720,12 @@ def _rescale_regime(ctx, fn, oned):
         if loop is None:
             bufs.append(None)
             continue
-        per_col = len(cparts) == 2 and eq(cparts[1], loop.k) and any(eq(loop.n, w) for w in trips)
+        per_col = len(cparts) == 2 and eq(cparts[1], COL) and any(eq(loop.n, w) for w in trips)
         cell = next((x for x in R.cells if eq(x.val, c.value)), None)
         if cell is not None:
             # stored into column k of a zero array inside the loop
             sp = ix_parts(cell.ix) if israt(cell.ix) else []
-            good = per_col and len(sp) == 2 and eq(sp[0], S.FULL) and eq(sp[1], loop.k) and un(_strip_carried(cell.old), "zeros") is not None
+            good = per_col and len(sp) == 2 and eq(sp[0], S.FULL) and eq(sp[1], loop.k) and _is_zero_array(cell.old)
             bufs.append((F.fn("loopres", loop.k, S.as_rat(loop.n), cell.new), good, cell.node, cell.ix))
             continue
         # the columns collected by a comprehension and stacked:  column_stack([...]) / array([...]).T / stack([...], axis=1)
@@ -725,7 +740,7 @@ def _rescale_regime(ctx, fn, oned):
             bufs.append(None)
             continue
         bufs.append((hold, per_col and eq(un(comp, "comp")[0], loop.k), c.node, loop.k))
-    ok = all(x is not None and x[1] for x in bufs) and ip[0].loops == ip[1].loops
+    ok = all(x is not None and x[1] for x in bufs)
     _chk(ctx, ok, f"{tag}: for every column i of the PSD, the curve's column i at the lower / upper edges is stored in column i of a zero array (one array per edge set)",
          bufs[0][2] if bufs[0] else fn, None if ok else [_short(x[3]) if x else None for x in bufs], [x[3] for x in bufs if x] + [c.value for c in ip])
     if not ok:
@@ -748,7 +763,7 @@ RULES = [
     ("C19-R1", r1_area, 8),
     ("C19-R2", r2_interp, 4),
     ("C19-R3", r3_resample, 11),
-    ("C19-R4", r4_rescale, 14),
+    ("C19-R4", r4_rescale, 21),
 ]
 LEVEL = "other"
 EXPLANATION = ("Static, decided on values and roles (functions evaluated on symbols, c19_sem.py): psd.area's general formula is the exact integral of the log-log "
